@@ -243,6 +243,14 @@ func (p *Path) Decode(format string, v string) bool {
 	if unixSec > 0 {
 		p.Start = time.Unix(unixSec, int64(micros)*1000)
 	} else {
+		// reject field values that cannot be written by Encode (e.g. month 13, day 32, hour 24)
+		// and that time.Date would silently normalize into another date
+		chk := time.Date(year, month, day, hour, minute, second, 0, time.UTC)
+		if chk.Month() != month || chk.Day() != day ||
+			chk.Hour() != hour || chk.Minute() != minute || chk.Second() != second {
+			return false
+		}
+
 		p.Start = time.Date(year, month, day, hour, minute, second, micros*1000, loc)
 	}
 
